@@ -35,7 +35,7 @@ MAP_MUTS = ["setitem", "delitem", "clear", "update", "inner_setitem", "inner_cle
 def floors(ctx):
     q = ctx.tier == "quick"
     f = {"evaluations": 5000 if q else 50000, "mutation_took_effect_on_copy": 1000, "protected_by_immutability": 500,
-         "input_probes": 300, "input_probes_with_unhashable_members": 50, "input_probes_fed_with_accessor_results": 10, "input_probes_on_the_base_class": 10, "two_results_in_hand_probes": 500, "sibling_key_probes": 200, "first_read_after_other_side_change_probes": 200}
+         "input_probes": 300, "input_probes_with_unhashable_members": 50, "input_probes_fed_with_accessor_results": 10, "input_probes_on_the_base_class": 10, "law_sets_probed_per_flag_combination": 16, "two_results_in_hand_probes": 500, "sibling_key_probes": 200, "first_read_after_other_side_change_probes": 200}
     for acc in ("links", "vertices", "u_vertices", "universes", "neighbors", "find_links", "bft", "dft_recursive",
                 "dft_iterative", "ibft", "edge_whitelist"):
         for mode in ("off", "cold", "warm", "off_then_on", "off_cold"):
@@ -540,6 +540,25 @@ def probe_inputs(ctx, rng):
 
     check("UniverseLaws", b_laws, lambda: [("edge_whitelist", None, MAP_MUTS)],
           lambda w: {repr(k): sorted(map(repr, v.items())) for k, v in w.edge_whitelist.items()})
+
+    # ... in every combination of the four rule flags (the whitelist is copied whatever else the law set says), with
+    # the flags by keyword and by position; whitelist keys related by subclassing
+    def b_laws_flags(flags, positional, related):
+        def build():
+            wl = ({Vertex: {Vertex: DirectedEdge}, Universe: {Vertex: UnDirectedEdge}} if not related else
+                  {Vertex: {Vertex: DirectedEdge, Universe: DirectedEdge}, Universe: {Vertex: UnDirectedEdge}, object: {object: DirectedEdge}})
+            if positional:
+                return UniverseLaws(wl, *flags), [("edge_whitelist", wl)]
+            return UniverseLaws(edge_whitelist=wl, mixed_links=flags[0], cycles=flags[1], multipath=flags[2],
+                                multiverse=flags[3]), [("edge_whitelist", wl)]
+
+        return build
+
+    for bits in range(16):
+        flags = tuple(bool(bits >> k & 1) for k in range(4))
+        check("UniverseLaws", b_laws_flags(flags, bits % 3 == 0, bits % 2 == 1), lambda: [("edge_whitelist", None, MAP_MUTS)],
+              lambda w: {repr(k): sorted(map(repr, v.items())) for k, v in w.edge_whitelist.items()})
+        ctx.count("law_sets_probed_per_flag_combination")
 
     def b_laws_proxy():
         import types
